@@ -87,7 +87,7 @@ func build(n *N, want reflect.Type) reflect.Value {
 	n = first(n)
 	switch want {
 	case posT:
-		if n.Leaf == "P1" {
+		if n.Leaf == "P1" || n.Leaf == "P*" {
 			return reflect.ValueOf(token.Pos(1))
 		}
 		return reflect.ValueOf(token.NoPos)
